@@ -22,11 +22,17 @@ def run(c):
 
     c.assumptions += [
         "crypto/tls + crypto/x509 (handshake, chain and name verification), the DNS resolver's AD bit and the MTA-STS fetcher are "
-        "facts of the model (per-MX / per-domain data); verifyDANE enters only through its verdict on the record kind (C13 models it)",
+        "facts of the model (per-MX / per-domain data); verifyDANE enters only through its verdict on the record kind (C13 models it): "
+        "DANE-EE record of the end-entity certificate / of another presented certificate, DANE-TA record of a presented CA on / off the "
+        "certification path, mismatch, unusable; the harness's ground truth for 'authenticated by DANE' is computed from the published "
+        "records and the presented chain (usage 3: the first certificate only)",
         "DNS world: the AD bit of an address answer for an aliased MX is the conjunction over the CNAME chain, and a TLSA RRset below a canonical "
         "name whose address RRset is not authenticated is never reported authenticated",
-        "idle-time limits of the pool and MTA-STS policy refresh over time are outside the model; connections are used sequentially "
-        "(one message at a time through the target), as the queue does per message",
+        "idle-time limits of the pool and MTA-STS policy refresh over time are outside the model (no cached policy: every delivery "
+        "fetches); overlapping deliveries are driven through a fixed family of schedules (all started while one lookup of domain 0 is "
+        "held back, one of them cancelled / timed out meanwhile, then released) — the Lean theorems cover every interleaving of the "
+        "lookup steps; the harness's contexts end 'at one instant' for the decision to dial (standard-library semantics), the "
+        "production dialer's refusal to dial on a finished context is emulated (the repo's mockdns test dialer ignores contexts)",
         "go-smtp server behaviour (REQUIRETLS advertised on TLS sessions only) is part of the scripted environment",
     ]
     return c.finish(
@@ -38,7 +44,13 @@ def run(c):
         "EE-match / TA-match / mismatch / unusable / SERVFAIL / none (+ delayed answers); MX host names that are CNAME aliases (signed / unsigned "
         "CNAME RRset, signed / unsigned canonical zone, CNAME-type query failing) with independent TLSA outcomes at the canonical and at the "
         "initial name (RFC 7672 2.2.2: which base domain is consulted in which order); injected MTA-STS fetcher (absent/none/testing/enforce x "
-        "listed); 1-2 MX candidates; plus every 1-3 message history over 5 message kinds on 10 fixed worlds; observation = per-recipient "
+        "listed); 1-2 MX candidates; server chains of 2-3 certificates (end-entity certificate first; its issuer and/or the genuine MX's "
+        "certificate / a foreign CA certificate after or between them) with TLSA records that pin the end-entity certificate, another "
+        "presented certificate (DANE-EE of the replayed genuine certificate or of the issuer, DANE-TA of an off-path certificate) or nothing; "
+        "plus every 1-3 message history over 5 message kinds on 10 fixed worlds; plus OVERLAPPING deliveries (`C05 conc`): 1-3 deliveries to "
+        "one domain started while the MTA-STS fetch / the TLSA answers / the MX answer are held back (fetcher and DNS front end that block "
+        "until released; the fetcher honours its context), one of them (first / middle / last / none) cancelled or past its deadline "
+        "meanwhile and aborted, the others run to completion, optionally followed by consecutive messages on the same pool; observation = per-recipient "
         "ok/temp/perm and which server received DATA over TLS or plaintext, with or without the REQUIRETLS parameter, on a new or reused "
         "connection; distinct = distinct histories",
         explanation="theorems over all policy lists, fact assignments and histories of any length; model tied to connect.go / remote.go / security.go / "
